@@ -18,13 +18,15 @@ def _conds(tier):
             c(cmd, vmax=3, warm=-1 if cmd == "2" else 0)
         for cmds in ("01", "10", "22", "12", "30", "03", "33", "20"):
             c(cmds, vmax=2, warm=1 if "2" in cmds else 0)
+        for cmd in "45":
+            c(cmd, vmax=3)          # bounded run paused from a handler, then the final start()
     else:
         for cmd in "0123":
             c(cmd, vmax=3, warm=-1, priosym=1, timeout=2400)
             c(cmd, kinds="001", parents="-1,-1,0", vmax=3, timeout=2400)
             c(cmd, clock="float", vmax=3, timeout=2400)
             c(cmd, clock="duration", vmax=2, timeout=2400)
-        for tup in itertools.product("0123", repeat=2):
+        for tup in itertools.product("012345", repeat=2):
             c("".join(tup), vmax=3, warm=-1 if "2" in tup else 0, timeout=2400)
             c("".join(tup), kinds="01", parents="-1,0", vmax=2, warm=-1 if "2" in tup else 0, timeout=2400)
         for tup in itertools.product("0123", repeat=3):
@@ -39,7 +41,8 @@ def run(ctx):
               S.run_up_to_including, sm.SimulatorWorkerThread.run, D.initialize, S.initialize):
         ctx.source_hash(f)
     ctx.bounds = {
-        "segmentation": "S commands over {run_up_to, run_up_to_including, step, start paused by a handler-issued stop}, "
+        "segmentation": "S commands over {run_up_to, run_up_to_including, step, start paused by a handler-issued stop, "
+                        "run_up_to / run_up_to_including paused by a handler-issued stop}, "
                         "command kinds fixed per condition, arguments symbolic; quick: all 4 single commands and 12 "
                         "pairs; thorough: all pairs and triples, int/float/Duration clocks",
         "program": "2 root events (thorough also a child scheduled by a handler), times 0..vmax, replication end "
